@@ -165,8 +165,10 @@ prop("C18", "a failed assign_in_place leaves a valid value",
 prop("C14", "in-place mutation stays inside the value",
      "Every constructing and mutating harness keeps the slice inside a larger symbolic array and asserts that all bytes outside the slice are unchanged (canaries), for successful and failing operations alike; CBMC's pointer checks flag writes past the enclosing object. Sibling-field preservation follows from the content equalities asserted after each step.",
      ["buffers longer than the per-shape bound", "sequences are covered one operation at a time from an arbitrary valid state"],
-     em("emplace", "canaries outside [k, k+n) unchanged after new_in_place (Ok or Err)", quick=["V_U8", "U_S1", "U_E1", "X_U8", "V_A3", "U_E3"], thorough=["U_S4", "X_V", "X_U16"])
-     + asg("canaries outside the target unchanged after assign_in_place (Ok or Err)"))
+     em("emplace", "canaries outside [k, k+n) unchanged after new_in_place (Ok or Err)", quick=["V_U8", "V_U16", "V_U8L32", "U_S1", "U_E1", "X_U8", "V_A3", "U_E3"], thorough=["U_S4", "X_V", "X_U16", "V_SB"])
+     + asg("canaries outside the target unchanged after assign_in_place (Ok or Err)")
+     + vsteps("bytes after the vector's slice unchanged after every FlatVec operation (element more aligned than the length type included)", quick=("V_U16_st",))
+     + xsteps("bytes after the vector's slice unchanged after FlexVec push", ops=["push"]))
 
 # ---------------------------------------------------------------- portable scalars
 INTS = ["le_u16", "le_u32", "le_u64", "le_i16", "le_i32", "le_i64", "be_u16", "be_u32", "be_u64", "be_i16", "be_i32", "be_i64"]
@@ -221,8 +223,10 @@ OUT_IO = ["buffer capacities above 8 bytes and more than 4 further stream bytes 
 prop("C07", "blocking IO delivers the sent sequence under every chunking",
      "One recv() from an arbitrary receiver state in front of an arbitrary well-formed stream delivered in every chunking, and one send() of an arbitrary valid image under every write chunking, are compared with the reference framing of the stream: delivered message == first message, consumed == its size(), buffered ++ unread == rest of the stream in order, Closed only at end of stream, no panic. Induction over calls gives whole sequences.",
      OUT_IO,
-     io_b("recv", "recv step: delivers the first message of the stream, consumes exactly it, keeps the rest in order; Closed only at end of stream")
-     + io_b("send", "send step: exactly size() bytes of the image reach the sink in order; buffer released"),
+     io_b("recv", "recv step: delivers the first message of the stream, consumes exactly it (or nothing when the guard is retained), keeps the rest in order; Closed only at end of stream")
+     + io_b("send", "send step: exactly size() bytes of the image reach the sink in order; buffer released")
+     + [H("io_blk::ctors::%s" % sh, 200, 6, "max_msg_len 0..12; message type %s" % sh, "io(pipe, max_msg_len): capacity 2*max(max_msg_len, MIN_SIZE), buffer aligned to the message type, for Receiver/Sender/AsyncReceiver/AsyncSender") for sh in ("U_S1", "V_U8L32", "V_U8")]
+     + [H("io_blk::emplaced::send_emplaced", 900, 10, "FlatVec<u8,u8> of 0..2 items or the default, 5-byte buffer with arbitrary stale contents, every write chunking", "alloc -> new_in_place / default_in_place -> send delivers exactly the emplaced message")],
      IO_ASSUME)
 
 prop("C08", "async IO delivers the same sequence under every chunking and poll schedule",
